@@ -612,7 +612,7 @@ func c15Main(c *Ctx, r *Report) {
 		okFile := fileArg == "os.Stdin" || strings.HasPrefix(fileArg, "os.Open(")
 		r.Check(ok && okFile, "main-wiring", fmt.Sprintf("doLint#%d", n), call.Pos(), "doLint(<stdin|opened file>, format, setLints' registry)", fmt.Sprintf("doLint is called with registry %s and input %s: the selection made by the flags is not what is linted with", regArg, fileArg))
 	}
-	r.Floor("doLint call sites", 2, n)
+	r.Floor("doLint call sites", 1, n)
 	// setLints error ⇒ Fatal before anything else; open error ⇒ Fatal
 	outs, abort := Enumerate(fn, SymOpts{Inline: func(*ssa.Function) bool { return false }, NoReturn: isFatal, LoopBound: 1, MaxPaths: 50000})
 	if abort != "" {
